@@ -177,26 +177,32 @@ func parse(data []byte) (doc *yaml.Node) {
 	return &n
 }
 
+// deepCopy copies a subtree; aliases are copied as aliases (same target), anchors
+// are dropped, and the copy is bounded in depth and node count.
 func deepCopy(n *yaml.Node, depth int) *yaml.Node {
-	if n == nil || depth > 100 {
+	budget := 2000
+	return deepCopyB(n, depth, &budget)
+}
+
+func deepCopyB(n *yaml.Node, depth int, budget *int) *yaml.Node {
+	*budget--
+	if n == nil || depth > 60 || *budget < 0 {
 		return scalar("x")
 	}
 	c := *n
-	c.Alias = nil
 	if n.Kind == yaml.AliasNode {
-		// copy of an alias becomes a copy of what it points to (bounded)
-		if n.Alias != nil {
-			return deepCopy(n.Alias, depth+1)
-		}
-		return scalar("x")
+		return &c
 	}
 	c.Anchor = ""
 	c.Content = nil
 	for _, ch := range n.Content {
-		c.Content = append(c.Content, deepCopy(ch, depth+1))
+		c.Content = append(c.Content, deepCopyB(ch, depth+1, budget))
 	}
 	return &c
 }
+
+// MaxInput bounds the size of a generated Taskfile (bytes).
+const MaxInput = 2 << 20
 
 // structMutate applies one structure-aware mutation to the tree.
 func structMutate(r *rand.Rand, doc *yaml.Node) string {
